@@ -14,6 +14,7 @@ open OutlineModel OutlineModel.UDP OutlineModel.CipherList OutlineModel.Socks
 theorem step_inv (c : Cfg) (st : State) (inv : NatInv st) (o : UDP.Op) : NatInv (stepOp c st o).1 := by
   cases o with
   | pkt client cip wire opens plain resolve => exact inv.upstream _ _ _ _ _ _ _ _ _
+  | pktFail client cip wire opens plain resolve => exact inv.upstream _ _ _ _ _ _ _ _ _
   | reply client srcIP srcPort body =>
     simp only [stepOp]
     cases hn : lookupNat st.nat client with
